@@ -72,7 +72,8 @@ def handleC10 (op : String) (args : Array Json) : Option Json := do
     let om ← c10Names? (arg args 3)
     let cols := createColumns s sel om (← jBool? (arg args 4)) (← c10Rows? (arg args 5))
     let ups := if (← jBool? (arg args 6)) then upsertAssignments s sel om cols else []
-    some (Json.arr #[c10NamesJ cols, c10NamesJ ups])
+    let conf := if (← jBool? (arg args 6)) then conflictColumns s cols else []
+    some (Json.arr #[c10NamesJ cols, c10NamesJ ups, c10NamesJ conf])
   | "c10.createmap" =>
     let s ← c10Schema? (arg args 1)
     some (c10NamesJ (createColumnsMap s (← c10Names? (arg args 2)) (← c10Names? (arg args 3)) (← c10Names? (arg args 4))))
@@ -90,6 +91,23 @@ def handleC10 (op : String) (args : Array Json) : Option Json := do
       | .create => "create"
       | .update => "update"
     some (Json.arr #[Json.str route, c10NamesJ r.1, c10NamesJ r.2])
+  | "c10.delconds" =>
+    let s ← c10Schema? (arg args 1)
+    some (c10NamesJ (deleteConds s (← c10Names? (arg args 2)) (← c10Names? (arg args 3)) (← jBool? (arg args 4))))
+  | "c10.rowsel" =>
+    -- [schema, kind, nz names of the value carrying the key, key (col,val) pairs, rows as lists of (col,val) pairs]
+    let s ← c10Schema? (arg args 1)
+    let kind ← jStr? (arg args 2)
+    let nz ← c10Names? (arg args 3)
+    let key ← (← jArr? (arg args 4)).toList.mapM c10Pair?
+    let rows ← (← jArr? (arg args 5)).toList.mapM fun r => do (← jArr? r).toList.mapM c10Pair?
+    let conds := match kind with
+      | "model" => modelConds s nz                                      -- Model(&m).Update…: first block of ConvertToAssignments
+      | "self" => (assignmentsOfStruct s s [star] [] true false nz nz).2 -- Save(&v) / Model(&v).Updates(&v): field loop
+      | "delete" => identityConds s nz
+      | _ => conflictColumns s [star]                                   -- upsert: conflict target
+    some (Json.mkObj [("conds", c10NamesJ conds),
+      ("rows", Json.arr ((selectRows conds (rowOf key) 0 (rows.map rowOf)).map (fun n => Json.num (JsonNumber.fromNat n))).toArray)])
   | "c10.saverow" =>
     some (Json.bool (saveWritesRow (← jBool? (arg args 1)) (← jBool? (arg args 2)) (← jBool? (arg args 3))))
   | _ => none
